@@ -253,8 +253,11 @@ func runC09Ciphertexts(c *Ctx) {
 		}
 	}
 	// symmetric keys of sizes aes.NewCipher refuses (and of sizes that do not match the data algorithm)
-	for _, n := range []int{0, 1, 15, 17, 24, 31, 33, 64} {
-		add(c09Case{alg: pick(c.R, dataAlgs...), data: randBytes(c, 48), keyLen: n + 1000, class: "key-size", desc: fmt.Sprintf("wrapped symmetric key of %d bytes", n)})
+	for _, n := range []int{0, 1, 15, 17, 20, 24, 31, 33, 64} {
+		alg := pick(c.R, dataAlgs...)
+		add(c09Case{alg: alg, data: randBytes(c, 48), keyLen: n + 1000, class: "key-size", desc: fmt.Sprintf("wrapped symmetric key of %d bytes", n)})
+		// the very same EncryptedKey delivered again (an attacker re-sends; a result remembered from the first, failed, attempt must not be trusted)
+		add(c09Case{alg: alg, data: randBytes(c, 48), keyLen: n + 1000, class: "key-size", desc: fmt.Sprintf("wrapped symmetric key of %d bytes, delivered again", n)})
 	}
 	// certificate variations
 	ec, _ := ecdsa.GenerateKey(elliptic.P256(), rand.Reader)
